@@ -17,5 +17,7 @@ META.update({
 def instances(tier):
     out = []
     for b in hist.EDIT_BASES:
+        if tier == "quick" and b in ("reused-index-subtree", "relinked-mux-input-with-sibling"):
+            continue  # (each base costs 2-6 CPU minutes here; these two are in C14, C16, C12 and in the thorough tier of C15)
         out.append(Instance("C15", "c14:h_rejected", dict(base=b, always_reports=(tier == "thorough")), name="H/%s" % b, cover=["rejected"], max_paths=30000, weight=10, time_limit=2500))
     return out, META
